@@ -1560,9 +1560,26 @@ private:
     {
       // For hostnames, use getaddrinfo with timeout
       auto dnsTimeout = std::chrono::seconds(2);
-      auto dnsResult =
-        std::async(std::launch::async,
-                   [&]() { return ::getaddrinfo(cr.host.c_str(), ps.c_str(), &hints, &res); });
+      std::future<int> dnsResult;
+      try
+      {
+        dnsResult =
+          std::async(std::launch::async,
+                     [&]() { return ::getaddrinfo(cr.host.c_str(), ps.c_str(), &hints, &res); });
+      }
+      catch (const std::system_error &ex)
+      {
+        // std::async(std::launch::async) throws when the resolver thread cannot
+        // be created (EAGAIN at the thread limit). connect() has already handed
+        // cr.sid to the caller, so the request must end like every other failed
+        // resolve: with a close for that id, not only with an error event.
+        std::string threadMsg = std::string("getaddrinfo: cannot start resolver thread: ") + ex.what();
+        decltype(_cbs.onClose) closeCb;
+        { std::lock_guard<std::mutex> g(_cbMutex); closeCb = _cbs.onClose; }
+        if (closeCb) closeCb(cr.sid, TransportErrorInfo{TransportError::Resolve, threadMsg});
+        err(TransportError::Resolve, threadMsg);
+        return false;
+      }
 
       auto dnsStatus = dnsResult.wait_for(dnsTimeout);
       if (dnsStatus == std::future_status::timeout)
